@@ -7,6 +7,9 @@ package c08race
 
 import (
 	"bytes"
+	"crypto/rand"
+	"crypto/rsa"
+	"crypto/sha256"
 	"fmt"
 	"io"
 	"sync"
@@ -14,8 +17,10 @@ import (
 
 	"github.com/dapr/kit/byteslicepool"
 	"github.com/dapr/kit/cron"
+	kitcrypto "github.com/dapr/kit/crypto"
 	"github.com/dapr/kit/logger"
 	encv1 "github.com/dapr/kit/schemes/enc/v1"
+	"github.com/lestrrat-go/jwx/v2/jwk"
 
 	"verif/enumx"
 )
@@ -61,9 +66,75 @@ func pipeline(id int, msg []byte) error {
 	return nil
 }
 
+// ---- crypto calls with separate keys and messages ----
+
+var rsaKeys = func() []jwk.Key {
+	var out []jwk.Key
+	for i := 0; i < 3; i++ {
+		k, err := rsa.GenerateKey(rand.Reader, 2048)
+		if err != nil {
+			panic(err)
+		}
+		j, err := jwk.FromRaw(k)
+		if err != nil {
+			panic(err)
+		}
+		out = append(out, j)
+	}
+	return out
+}()
+
+func cryptoCalls(id int) error {
+	msg := bytes.Repeat([]byte{byte(id)}, 20+id)
+	priv := rsaKeys[id%len(rsaKeys)]
+	pub, err := priv.PublicKey()
+	if err != nil {
+		return err
+	}
+	for _, alg := range []string{"RSA-OAEP", "RSA-OAEP-256", "RSA1_5"} {
+		ct, err := kitcrypto.EncryptPublicKey(msg, alg, pub, nil)
+		if err != nil {
+			return fmt.Errorf("%s encrypt: %w", alg, err)
+		}
+		pt, err := kitcrypto.DecryptPrivateKey(ct, alg, priv, nil)
+		if err != nil {
+			return fmt.Errorf("%s decrypt of a valid ciphertext: %w", alg, err)
+		}
+		if !bytes.Equal(pt, msg) {
+			return fmt.Errorf("%s round trip gave another caller's bytes", alg)
+		}
+	}
+	digest := sha256.Sum256(msg)
+	for _, alg := range []string{"PS256", "RS256"} {
+		sig, err := kitcrypto.SignPrivateKey(digest[:], alg, priv)
+		if err != nil {
+			return fmt.Errorf("%s sign: %w", alg, err)
+		}
+		ok, err := kitcrypto.VerifyPublicKey(digest[:], sig, alg, pub)
+		if err != nil || !ok {
+			return fmt.Errorf("%s verify of a valid signature: %v %v", alg, ok, err)
+		}
+	}
+	key := bytes.Repeat([]byte{byte(id + 1)}, 32)
+	symKey, err := jwk.FromRaw(key)
+	if err != nil {
+		return err
+	}
+	nonce := bytes.Repeat([]byte{byte(id)}, 12)
+	ct, tag, err := kitcrypto.EncryptSymmetric(msg, "A256GCM", symKey, nonce, nil)
+	if err != nil {
+		return err
+	}
+	pt, err := kitcrypto.DecryptSymmetric(ct, "A256GCM", symKey, nonce, tag, nil)
+	if err != nil || !bytes.Equal(pt, msg) {
+		return fmt.Errorf("A256GCM round trip: %v", err)
+	}
+	return nil
+}
+
 func TestCheck(t *testing.T) {
 	enumx.Main(t, "C08", "race-sampling", func(r *enumx.Run, replay *enumx.ReplayCase) {
-		r.Rule("SUPPLEMENTARY, sampling: independent enc/v1 pipelines (two ciphers, sizes around one segment), cron ParseStandard calls, logger look-ups and byte-slice-pool cycles run side by side on the real runtime in a -race build; every pipeline must still round-trip and the race detector must stay quiet. Not exhaustive and not the deciding step for C08.")
+		r.Rule("SUPPLEMENTARY, sampling: independent enc/v1 pipelines (two ciphers, sizes around one segment), crypto calls with separate keys and messages (RSA-OAEP/PKCS1 encryption, PSS/PKCS1 signatures, AES-GCM), cron ParseStandard calls, logger look-ups and byte-slice-pool cycles run side by side on the real runtime in a -race build; every pipeline must still round-trip and the race detector must stay quiet. Not exhaustive and not the deciding step for C08.")
 		r.Assume("the Go race detector reports only races that actually occur in the sampled schedules")
 		rounds := 60
 		if r.Thorough() {
@@ -79,11 +150,33 @@ func TestCheck(t *testing.T) {
 				wg.Add(1)
 				go func() {
 					defer wg.Done()
+					defer func() {
+						if p := recover(); p != nil {
+							errs <- fmt.Errorf("an enc/v1 pipeline panicked when run side by side: %v", p)
+						}
+					}()
 					msg := bytes.Repeat([]byte{byte('a' + g)}, sizes[(g+round)%len(sizes)])
 					if err := pipeline(g, msg); err != nil {
 						errs <- err
 					}
 				}()
+			}
+			if round%4 == 0 {
+				for g := 0; g < 6; g++ {
+					g := g
+					wg.Add(1)
+					go func() {
+						defer wg.Done()
+						defer func() {
+							if p := recover(); p != nil {
+								errs <- fmt.Errorf("crypto calls with separate keys panicked when run side by side: %v", p)
+							}
+						}()
+						if err := cryptoCalls(g); err != nil {
+							errs <- err
+						}
+					}()
+				}
 			}
 			for g := 0; g < 4; g++ {
 				g := g
